@@ -7,7 +7,8 @@
                            Decode glue on the first n bytes of the current file with a codec
                            oracle: ck=1 the image bitstream decodes to cw x ch, ck=0 it fails;
                            ak=1 the alpha plane decodes, 0 it fails
-     W <fourcc> <w> <h> <bs> <alpha> <icc> <exif> <xmp>      (hex, "-" = empty)
+     W <fourcc> <w> <h> <bs> <alpha> <icc> <exif> <xmp> [<file>]   (hex, "-" = empty; with
+                           <file> = the bytes the implementation wrote, an S part judges those)
                            writeRIFF; result = bytes digest, well-formedness, chunks by id,
                            and the container parse of the written file
      WL <w> <h> <bs> <icc> <exif> <xmp>
@@ -102,16 +103,23 @@ let chunk_s file id =
   | None -> "-"
   | Some d -> fnv (il d)
 
-let written_line (r : BinNums.coq_Z list Res.coq_Res) : string =
-  match r with
-  | Res.Ok out ->
-    Printf.sprintf "out=%s wf=%s icc=%s exif=%s xmp=%s parse=%s"
-      (fnv (il out)) (b2s (ParserSpec.riff_wf out))
-      (chunk_s out ParserModel.coq_FourCCICCP) (chunk_s out ParserModel.coq_FourCCEXIF)
-      (chunk_s out ParserModel.coq_FourCCXMP)
-      (show_res show_parsed (ParserModel.parse fix_noimage out))
-  | Res.Err e -> Printf.sprintf "E%d" (int_of_nat e)
-  | Res.Panic -> "PANIC"
+let file_line (out : BinNums.coq_Z list) : string =
+  Printf.sprintf "out=%s wf=%s icc=%s exif=%s xmp=%s parse=%s"
+    (fnv (il out)) (b2s (ParserSpec.riff_wf out))
+    (chunk_s out ParserModel.coq_FourCCICCP) (chunk_s out ParserModel.coq_FourCCEXIF)
+    (chunk_s out ParserModel.coq_FourCCXMP)
+    (show_res show_parsed (ParserModel.parse fix_noimage out))
+
+(* I: the writer model's bytes, judged by the specification walker and the parser model;
+   S: the same judgement on the bytes the implementation wrote (when given). *)
+let written_line (r : BinNums.coq_Z list Res.coq_Res) (gofile : string option) : string =
+  let i = match r with
+    | Res.Ok out -> file_line out
+    | Res.Err e -> Printf.sprintf "E%d" (int_of_nat e)
+    | Res.Panic -> "PANIC" in
+  match gofile with
+  | None -> i
+  | Some hex -> i ^ " S " ^ file_line (zl (unhex hex))
 
 let () = iter_lines (fun line ->
   let out =
@@ -121,12 +129,14 @@ let () = iter_lines (fun line ->
       | ["P"; n] -> parse_line (take (int_of_string n) !cur)
       | ["G"; n; ck; cw; ch; ak] ->
         glue_line (take (int_of_string n) !cur) (ck = "1") (int_of_string cw) (int_of_string ch) (ak = "1")
-      | ["W"; fcc; w; h; bs; alpha; icc; exif; xmp] ->
+      | "W" :: fcc :: w :: h :: bs :: alpha :: icc :: exif :: xmp :: go ->
         written_line (WriterModel.write_riff (z_of_string fcc) (zl (unhex bs)) (zl (unhex alpha))
                         (z_of_string w) (z_of_string h) (zl (unhex icc)) (zl (unhex exif)) (zl (unhex xmp)))
-      | ["WL"; w; h; bs; icc; exif; xmp] ->
+          (match go with [g] -> Some g | _ -> None)
+      | "WL" :: w :: h :: bs :: icc :: exif :: xmp :: go ->
         written_line (WriterModel.encode_lossless_container (zl (unhex bs)) (z_of_string w) (z_of_string h)
                         (zl (unhex icc)) (zl (unhex exif)) (zl (unhex xmp)))
+          (match go with [g] -> Some g | _ -> None)
       | ["A"; fc; hp; hm; anim; simple] ->
         let s = if simple = "none" then None else Some (zl (unhex simple)) in
         fnv (il (WriterModel.anim_close fix_meta (z_of_string fc) (hp = "1") (hm = "1") (zl (unhex anim)) s))
